@@ -3,6 +3,7 @@
 mod cfgcase;
 mod chain;
 mod gens;
+mod mlog;
 mod space;
 mod stat;
 mod util;
@@ -85,6 +86,26 @@ fn main() {
         "space-run" => {
             let mut out = Out::create(a.get("out"));
             space::run(a.get("in"), a.num("jobs", 12) as usize, &mut out);
+            println!("events={}", out.lines);
+            out.finish();
+        }
+        "mlog-replay" => {
+            let mut out = Out::create(a.get("out"));
+            let mut m = mlog::MLog::new(a.get("scratch"), a.num("seed", 1));
+            for b in read_behaviours(a.get("in")) {
+                out.put_all(&m.exec(&b));
+            }
+            println!("events={}", out.lines);
+            out.finish();
+        }
+        "mlog-drive" => {
+            let mut rng = rng(a.num("seed", 1));
+            let mut out = Out::create(a.get("out"));
+            let mut m = mlog::MLog::new(a.get("scratch"), a.num("seed", 1));
+            for _ in 0..a.num("hist", 50) {
+                let h = mlog::random_history(&mut rng, a.num("len", 8) as usize, a.get_or("crash", "sample"));
+                out.put_all(&m.exec(&h));
+            }
             println!("events={}", out.lines);
             out.finish();
         }
